@@ -155,14 +155,14 @@ def op_layout_compare(sim: Sim, a) -> str:
                 s1 = deep_snapshot(doc, cap)
             except Exception as e:  # noqa: BLE001
                 fr = lib_frame(e)
-                sim.violation("C06.same_document", {"what": "raises", "exc": type(e).__name__, "kinds": _kinds(a)},
+                sim.violation("C06.same_document", {"what": "raises", "exc": type(e).__name__},
                               f"{label}: after {applied} the rewritten file cannot be read: {type(e).__name__}: {e} ({fr})")
         if fw.events:
             sim.violation("C06.no_silent_fallback", {"list": sorted({e[0] for e in fw.events})},
                           f"{label}: after {applied}: {len(fw.events)} lookups failed for keys that ARE present in the list, e.g. {fw.events[:3]}")
         d, n = diff_snap(s0, s1, set())
         if d:
-            sim.violation("C06.same_document", {"what": classify(d), "kinds": _kinds(a)},
+            sim.violation("C06.same_document", {"what": classify(d)},
                           f"{label}: after {applied} {n}{'+' if n >= 40 else ''} entries read differently; first (key, original, rewritten): {d}")
         check_row_index(sim, doc, Package.read(dst), label)
         sim.stats["cells_compared"] += len(s1)
